@@ -297,6 +297,9 @@ func cmdCheck(args []string) int {
 			j.o.Output = j.o.Taint
 			continue
 		}
+		if j.expectSat {
+			j.o.QFOnly = true
+		}
 		p := &prepared{job: j}
 		parts := []*Term{j.o.Goal}
 		if !j.expectSat {
